@@ -335,6 +335,7 @@ func runCheck(o checkOpts) int {
 	var knownHit []string
 	discharged := 0
 	covers, coversOK := 0, 0
+	var coverUndecided []string
 	var solverTime float64
 	for _, ob := range selected {
 		solverTime += ob.TimeS
@@ -351,8 +352,25 @@ func runCheck(o checkOpts) int {
 			byBackend[ob.Solver]++
 			continue
 		}
+		if ob.Kind == "cover" && (ob.Verdict == "timeout" || ob.Verdict == "unknown") {
+			// a vacuity probe that the solvers could not answer is recorded, not failed:
+			// only a definite "unsat" shows contradictory assumptions
+			coverUndecided = append(coverUndecided, ob.Name)
+			continue
+		}
 		if kf := isKnown(ob.Name); kf != nil {
-			knownHit = append(knownHit, fmt.Sprintf("KNOWN-FINDING: property=%s %s: %s", prop, ob.Name, kf.What))
+			line := fmt.Sprintf("KNOWN-FINDING: property=%s %s: %s", prop, ob.Name, kf.What)
+			if ob.Verdict == "sat" && os.Getenv("GOVC_NOEVIDENCE") == "" {
+				rp := replayFile{Property: prop, Obligation: ob.Name, Kind: ob.Kind, Func: ob.Func, Text: ob.Text, Verdict: ob.Verdict, Solver: ob.Solver, Model: ob.Model, Pos: ob.Pos}
+				if tryReplay(w, ob, &rp) {
+					line += " [counterexample replayed on the real code: confirmed]"
+				}
+				dir := filepath.Join(verifDir(), "evidence", "replay", prop)
+				_ = os.MkdirAll(dir, 0o755)
+				b, _ := json.MarshalIndent(rp, "", " ")
+				_ = os.WriteFile(filepath.Join(dir, "known_"+sanitize(ob.Name)+".json"), b, 0o644)
+			}
+			knownHit = append(knownHit, line)
 			continue
 		}
 		failed = append(failed, ob)
@@ -390,6 +408,9 @@ func runCheck(o checkOpts) int {
 	replayDir := filepath.Join(verifDir(), "evidence", "replay", prop)
 	for _, ob := range failed {
 		exit = 1
+		if os.Getenv("GOVC_NOEVIDENCE") != "" {
+			replayDir = filepath.Join(os.TempDir(), "govc-replay", prop)
+		}
 		_ = os.MkdirAll(replayDir, 0o755)
 		path := filepath.Join(replayDir, sanitize(ob.Name)+".json")
 		rp := replayFile{Property: prop, Obligation: ob.Name, Kind: ob.Kind, Func: ob.Func, Text: ob.Text, Verdict: ob.Verdict, Solver: ob.Solver,
@@ -414,7 +435,7 @@ func runCheck(o checkOpts) int {
 	}
 	// evidence
 	writeEvidence(prop, o, results, selected, funcsUnder, discharged, byBackend, byKind, reports, knownHit, len(failed), covers, coversOK,
-		time.Since(start).Seconds(), solverTime, w.loadS, genS, solveS, rc)
+		time.Since(start).Seconds(), solverTime, w.loadS, genS, solveS, rc, coverUndecided)
 	fmt.Printf("property=%s tier=%s functions=%d obligations=%d discharged=%d known=%d failed=%d wall=%.1fs (load %.1fs, vcgen %.1fs, solve %.1fs)\n",
 		prop, o.tier, len(funcsUnder), len(selected), discharged, len(knownHit), len(failed), time.Since(start).Seconds(), w.loadS, genS, solveS)
 	return exit
@@ -454,6 +475,7 @@ type replayFile struct {
 	Model        string `json:"model,omitempty"`
 	SolverOutput string `json:"solver_output,omitempty"`
 	ReplayTest   string `json:"replay_test,omitempty"`
+	ReplayPkgDir string `json:"replay_pkg_dir,omitempty"`
 	ReplayOutput string `json:"replay_output,omitempty"`
 	Confirmed    bool   `json:"confirmed_on_real_code"`
 	Note         string `json:"note,omitempty"`
@@ -461,7 +483,7 @@ type replayFile struct {
 
 func writeEvidence(prop string, o checkOpts, results []*funcResult, selected []*Obligation, funcs []string, discharged int,
 	byBackend, byKind map[string]int, reports []oblReport, knownHit []string, nfailed, covers, coversOK int,
-	wall, solverTime, loadS, genS, solveS float64, rc runConfig) {
+	wall, solverTime, loadS, genS, solveS float64, rc runConfig, coverUndecided []string) {
 	assump := map[string]bool{}
 	unsup := map[string]bool{}
 	inl := map[string]bool{}
@@ -511,7 +533,7 @@ func writeEvidence(prop string, o checkOpts, results []*funcResult, selected []*
 		"solver_time_s":            round2(solverTime),
 		"phase_s":                  map[string]float64{"load_and_ssa": round2(loadS), "vc_generation": round2(genS), "solving_wall": round2(solveS)},
 		"slowest":                  slow,
-		"vacuity":                  map[string]any{"covers": covers, "covers_sat": coversOK},
+		"vacuity":                  map[string]any{"covers": covers, "covers_sat": coversOK, "covers_undecided": coverUndecided},
 		"known_findings":           knownHit,
 		"inlined_callees":          keysOf(inl),
 		"uncontracted_callees":     keysOf(hav),
@@ -540,6 +562,9 @@ func writeEvidence(prop string, o checkOpts, results []*funcResult, selected []*
 		"assumptions": assumptions,
 		"wall_s":      round2(wall),
 		"violations":  nfailed,
+	}
+	if os.Getenv("GOVC_NOEVIDENCE") != "" {
+		return
 	}
 	dir := filepath.Join(verifDir(), "evidence")
 	_ = os.MkdirAll(dir, 0o755)
